@@ -75,6 +75,7 @@ func c24Rows() {
 	distinct := map[string]bool{}
 	acc := 0
 	for i, o := range obs {
+		o.Panic, o.Setup = clean(o.Panic), clean(o.Setup)
 		vio.Emit(o)
 		if len(rows[i].Sigs) > 0 || len(rows[i].Bks) > 0 {
 			distinct[fmt.Sprint(rows[i].Chain, rows[i].N, rows[i].M, rows[i].Script, rows[i].Bks, rows[i].Sigs)] = true
